@@ -82,6 +82,7 @@ package output
 
 //@ func validateParamsExistsInParams
 //@   property C06 C16
+//@   reports_all
 //@   requires existing != nil
 //@   ensures [nonnil_elems] forall j int :: 0 <= j && j < len(result) ==> result[j] != nil
 //@   ensures [ok_if_empty @a] len(result) == 0 ==> (forall j int :: 0 <= j && j < len(params) ==> namesIn(params[j].DependsOn, dom(existing)))
@@ -99,6 +100,7 @@ package output
 
 //@ func validateParamsExistsInServices
 //@   property C06 C16
+//@   reports_all
 //@   requires existing != nil
 //@   ensures [nonnil_elems] forall j int :: 0 <= j && j < len(result) ==> result[j] != nil
 //@   ensures [ok_if_empty @a] len(result) == 0 ==> (forall j int :: 0 <= j && j < len(services) ==> svcParamsIn(services[j], dom(existing)))
@@ -126,6 +128,7 @@ package output
 // fields) or a decorator names a declared parameter.
 //@ func ValidateParamsExist
 //@   property C06 C15 C16
+//@   reports_all
 //@   ensures [accept_sound_params @a] result == nil ==> (forall j int :: 0 <= j && j < len(o.Params) ==> namesIn(o.Params[j].DependsOn, declaredParams(o)))
 //@   ensures [accept_sound_services @a] result == nil ==> (forall j int :: 0 <= j && j < len(o.Services) ==> svcParamsIn(o.Services[j], declaredParams(o)))
 //@   ensures [accept_sound_decorators @a] result == nil ==> (forall d int :: 0 <= d && d < len(o.Decorators) ==> decParamsIn(o.Decorators[d], declaredParams(o)))
@@ -140,6 +143,7 @@ package output
 
 //@ func validateServicesExistsInServices
 //@   property C06 C16
+//@   reports_all
 //@   requires existing != nil
 //@   ensures [nonnil_elems] forall j int :: 0 <= j && j < len(result) ==> result[j] != nil
 //@   ensures [ok_if_empty @a] len(result) == 0 ==> (forall j int :: 0 <= j && j < len(services) ==> svcServicesIn(services[j], dom(existing)))
@@ -165,6 +169,7 @@ package output
 
 //@ func validateServicesExistsInDecorators
 //@   property C06 C16
+//@   reports_all
 //@   requires existing != nil
 //@   ensures [nonnil_elems] forall j int :: 0 <= j && j < len(result) ==> result[j] != nil
 //@   ensures [ok_if_empty @a] len(result) == 0 ==> (forall j int :: 0 <= j && j < len(decorators) ==> decServicesIn(decorators[j], dom(existing)))
@@ -191,6 +196,7 @@ package output
 // C06, services: accepted iff every @service referenced from a service or a decorator names a declared service.
 //@ func ValidateServicesExist
 //@   property C06 C15 C16
+//@   reports_all
 //@   ensures [accept_sound_services @a] result == nil ==> (forall j int :: 0 <= j && j < len(o.Services) ==> svcServicesIn(o.Services[j], declaredServices(o)))
 //@   ensures [accept_sound_decorators @a] result == nil ==> (forall d int :: 0 <= d && d < len(o.Decorators) ==> decServicesIn(o.Decorators[d], declaredServices(o)))
 //@   ensures [accept_complete @b]
@@ -203,6 +209,7 @@ package output
 
 //@ func validateParamsExistsInDecorators
 //@   property C06 C16
+//@   reports_all
 //@   requires existing != nil
 //@   ensures [nonnil_elems] forall j int :: 0 <= j && j < len(result) ==> result[j] != nil
 //@   ensures [ok_if_empty @a] len(result) == 0 ==> (forall j int :: 0 <= j && j < len(decorators) ==> decParamsIn(decorators[j], dom(existing)))
@@ -315,6 +322,7 @@ package output
 // C07: accepted iff the dependency relation (exactly depRel, by BuildDependencyGraph's contract) has no cycle
 //@ func ValidateCircularDeps
 //@   property C07 C12 C16
+//@   reports_all
 //@   modifies edges
 //@   ensures [graph_is_the_dependency_relation] forall a Node, b Node :: edge(edges, a, b) <==> depRel(o, a, b, len(o.Services), len(o.Decorators), len(o.Params))
 //@   ensures [accept_iff_acyclic] (result == nil) <==> acyclic(edges)
@@ -326,6 +334,7 @@ package output
 
 //@ func ValidateServicesScopes
 //@   property C05 C16 C12
+//@   reports_all
 //@   requires [service_names_distinct] forall a int, b int :: 0 <= a && a < b && b < len(o.Services) ==> o.Services[a].Name != o.Services[b].Name
 //@   modifies edges
 //@   ensures [graph_is_the_dependency_relation] forall a Node, b Node :: edge(edges, a, b) <==> depRel(o, a, b, len(o.Services), len(o.Decorators), len(o.Params))
